@@ -403,3 +403,12 @@ def check_reader(ctx):
                                                                 for h in st.handlers) for st in walk_local(ri.node))
     ctx.check('R3', 'results_iter stops when next_result raises queue.Empty', ok, 'PersistentWorker.results_iter', 'iter-does-not-stop',
               'results_iter() does not stop on queue.Empty', where=loc(ri, ri.node) if ri else None)
+
+
+def run_thorough(ctx):
+    """bytecode tier (DESIGN E4): the AST-level CFG's landing statements and handler routing agree with CPython's exception tables"""
+    from ..bytecode import cross_check_all
+    st = cross_check_all(ctx)
+    ctx.stats['bytecode_tier'] = st
+    ctx.ob('E4', f"bytecode tier: {st['landing_instructions']} CALL-type landing instructions of {st['functions_cross_checked']} functions "
+                 f"({st['instructions']} instructions) are routed to the same handler as the async edges of the AST tier", True)
